@@ -427,6 +427,12 @@ func (h *Handler) doBatchCheck(ctx context.Context, body io.Reader, query url.Va
 			h.d.Config(ctx).BatchCheckMaxBatchSize())
 	}
 
+	for _, tuple := range request.Tuples {
+		if tuple == nil {
+			return nil, errors.WithStack(herodot.ErrBadRequest.WithError("tuples must not contain null"))
+		}
+	}
+
 	results, err := h.d.PermissionEngine().BatchCheck(ctx, request.Tuples, maxDepth)
 	if err != nil {
 		return nil, err
